@@ -127,6 +127,17 @@ func runDirect(c *mc.Ctx) {
 				if c.WantSample() && ci == 7 && mi%40 == 3 {
 					c.Sample(d)
 				}
+				// modifiers that name assets, read against a second instance of the same assets
+				if t, _ := mods[mi]["type"].(string); mf == 640 && (t == "groups" || t == "channel" || t == "ticket") {
+					d2 := &cf.Direct{Contact: contacts[ci], Modifier: mods[mi], MaxField: mf, OtherAssets: true}
+					c.Inc("evaluations")
+					c.Inc("direct_applications_with_reloaded_assets")
+					c.Inc("transitions")
+					c.Inc("states")
+					for _, p := range judgeDirect(c, w, d2, true) {
+						c.Violation("reloaded-assets:"+p.Key, p.What+"\ncontact: "+mc.JSON(d2.Contact)+"\nmodifier (read against a second instance of the assets): "+mc.JSON(d2.Modifier), map[string]any{"space": "direct", "case": d2})
+					}
+				}
 			}
 			c.Inc("distinct_nontrivial")
 		}
